@@ -334,11 +334,15 @@ struct basic_string_view {
     /// if no such substring is found.
     [[nodiscard]] constexpr auto find(basic_string_view v, size_type pos = 0) const noexcept -> size_type
     {
-        if (v.size() > size() - pos) {
+        if (pos > size() or v.size() > size() - pos) {
             return npos;
         }
 
-        for (size_type outerIdx = pos; outerIdx < size(); ++outerIdx) {
+        if (v.empty()) {
+            return pos;
+        }
+
+        for (size_type outerIdx = pos; outerIdx <= size() - v.size(); ++outerIdx) {
             if (unsafe_at(outerIdx) == v.front()) {
                 auto found = [&] {
                     for (size_type innerIdx = 0; innerIdx < v.size(); ++innerIdx) {
